@@ -718,8 +718,11 @@ impl Visit for Analyzer<'_> {
         matches!(n.test.cast_to_bool(expr_ctxt), (_, Value::Known(true)))
           && a.scope.found_break.is_none();
       let has_break = matches!(a.scope.found_break, Some(None));
+      // A `continue` in the body jumps to the test, which may then end the loop
+      // even though the rest of the body always returns or throws.
+      let has_continue = a.scope.found_continue;
 
-      if return_or_throw && !has_break {
+      if return_or_throw && !has_break && !has_continue {
         // This `unwrap` is safe;
         // if `return_or_throw` is true, `end_reason` is surely wrapped in `Some`.
         a.mark_as_end(body_lo, end_reason.unwrap());
